@@ -729,7 +729,13 @@ func (env *Env) loaded(v Val) Val {
 	default:
 		return v
 	}
-	if v.T.Sort == SInt {
+	isMutexPtr := false
+	if mt := derefType(v.Typ); mt != nil {
+		if n, ok := types.Unalias(mt).(*types.Named); ok && (qualName(n) == "sync.Mutex" || qualName(n) == "sync.RWMutex") {
+			isMutexPtr = true
+		}
+	}
+	if v.T.Sort == SInt && !isMutexPtr {
 		if _, _, ok := intRange(v.Typ); !ok {
 			return v
 		}
@@ -747,6 +753,12 @@ func (env *Env) loaded(v Val) Val {
 		return v
 	}
 	vc.typedSeen[v.T.S] = true
+	if isMutexPtr {
+		// the same fact the code's own loads get: a mutex pointer held in a field points to a separately allocated mutex
+		env.te().pre.Add("fn:subtag", "(declare-fun subtag (Int) Int)")
+		vc.assume(Term{fmt.Sprintf("(= (subtag %s) 0)", v.T.S), SBool})
+		return v
+	}
 	env.fr.assumeTyped(v.Typ, v.T)
 	return v
 }
